@@ -1270,57 +1270,66 @@ func runC12Round3(c *Ctx) {
 		c.Anchor("Resolver.Resolve")
 		return
 	}
-	fn := p.SSAFunc(m)
-	merges := calls(fn, func(ci ssa.CallInstruction) bool {
+	resolveFn := p.SSAFunc(m)
+	isMerge := func(ci ssa.CallInstruction) bool {
 		f := calleeOf(ci)
 		return f != nil && recvNamed(f) != nil && recvNamed(f).Obj().Name() == "Conf" && strings.HasPrefix(strings.ToLower(f.Name()), "merge")
-	})
-	found := false
-	allMerges := map[ssa.Instruction]bool{}
-	for _, mg := range merges {
-		allMerges[mg.(ssa.Instruction)] = true
 	}
-	doneHdr := map[*ssa.BasicBlock]bool{}
-	for _, mg := range merges {
-		hdr, body := innermostLoop(mg.Block())
-		if hdr != nil && doneHdr[hdr] {
+	found := false
+	// the loop over the sources is looked for in Resolve and in the helpers of the package it is split into; a call
+	// of a helper every path of which merges (`mergeConf(dest, src)`) is a merge (robust_A5.go)
+	within := a5ReachableInPkg(resolveFn, 3)
+	for _, fn := range p.AllSrcFuncs(pk) {
+		if fn.Parent() != nil || !within[fn] {
 			continue
 		}
-		if hdr != nil {
-			doneHdr[hdr] = true
+		merges := a5MustCallSites(fn, isMerge, 2)
+		allMerges := map[ssa.Instruction]bool{}
+		for _, mg := range merges {
+			allMerges[mg.(ssa.Instruction)] = true
 		}
-		if hdr == nil {
-			continue
-		}
-		// the loop ranges over the uris field
-		overURIs := false
-		for b := range body {
-			for _, in := range b.Instrs {
-				if ia, ok := in.(*ssa.IndexAddr); ok {
-					if _, path := fieldChain(ia.X); len(path) > 0 && path[len(path)-1] == "uris" {
-						overURIs = true
+		doneHdr := map[*ssa.BasicBlock]bool{}
+		for _, mg := range merges {
+			hdr, body := innermostLoop(mg.Block())
+			if hdr != nil && doneHdr[hdr] {
+				continue
+			}
+			if hdr != nil {
+				doneHdr[hdr] = true
+			}
+			if hdr == nil {
+				continue
+			}
+			// the loop ranges over the uris field
+			overURIs := false
+			for b := range body {
+				for _, in := range b.Instrs {
+					if ia, ok := in.(*ssa.IndexAddr); ok {
+						if _, path := fieldChain(ia.X); len(path) > 0 && path[len(path)-1] == "uris" {
+							overURIs = true
+						}
 					}
 				}
 			}
-		}
-		if !overURIs {
-			continue
-		}
-		found = true
-		// from the loop body's entry, the head cannot be reached again without the merge
-		bypass := false
-		for _, sc := range hdr.Succs {
-			if !body[sc] || len(sc.Instrs) == 0 {
+			if !overURIs {
 				continue
 			}
-			if !allMerges[sc.Instrs[0]] && canReach(sc.Instrs[0], hdr.Instrs[0], allMerges) {
-				bypass = true
+			found = true
+			// from the loop body's entry, the head cannot be reached again without the merge
+			bypass := false
+			for _, sc := range hdr.Succs {
+				if !body[sc] || len(sc.Instrs) == 0 {
+					continue
+				}
+				if !allMerges[sc.Instrs[0]] && canReach(sc.Instrs[0], hdr.Instrs[0], allMerges) {
+					bypass = true
+				}
 			}
+			c.Check(!bypass, "every source of the list is merged in "+fnName(fn), p.Pos(mg.Pos()), "no iteration skips the merge", "an iteration of the loop over the sources can continue without merging what it stands for (e.g. a location that was seen before is skipped): with [base, site, base] the result is merge(base, site) instead of base winning again – the merge is no longer right-biased over the list")
 		}
-		c.Check(!bypass, "every source of the list is merged in "+fnName(fn), p.Pos(mg.Pos()), "no iteration skips the merge", "an iteration of the loop over the sources can continue without merging what it stands for (e.g. a location that was seen before is skipped): with [base, site, base] the result is merge(base, site) instead of base winning again – the merge is no longer right-biased over the list")
 	}
 	if !found {
-		c.Undecided("merge loop over the source list", p.Pos(fn.Pos()), "not found")
+		c.Undecided("merge loop over the source list", p.Pos(resolveFn.Pos()), "not found")
 	}
 }
 
